@@ -11,7 +11,9 @@ mod net20;
 mod net21;
 mod ows;
 mod sockio;
+mod sockopt;
 mod time;
+mod timed;
 
 pub fn lookup(name: &str) -> Option<AreaFn> {
     match name {
@@ -24,6 +26,8 @@ pub fn lookup(name: &str) -> Option<AreaFn> {
         "net20" => Some(net20::run),
         "net21" => Some(net21::run),
         "sockio" => Some(sockio::run),
+        "sockopt" => Some(sockopt::run),
+        "timed" => Some(timed::run),
         _ => None,
     }
 }
